@@ -175,8 +175,10 @@ def make_genB(tier):
         D = ch.pick("pl.min_downtime", [0, 2, 3])
         if D:
             a["min_downtime"] = D * step_h
-        sc = ch.pick("pl.start_costs", [0.0, 7.0])
-        if sc:
+        sc = ch.pick("pl.start_costs", [0.0, 7.0, "dict_partial"])
+        if sc == "dict_partial":   # start costs per step, zero in the second half of the horizon
+            a["start_costs"] = S.interval_dict(g, [((("gp", 0), ("gp", max(1, T // 2))), 7.0)])
+        elif sc:
             a["start_costs"] = sc
         rc = ch.pick("pl.running_costs", [0.0, 0.5])
         if rc:
@@ -184,6 +186,10 @@ def make_genB(tier):
                 return None  # with min_cap = 0 "on" is not observable (EAO warns about it): costs when on are undefined
             a["running_costs"] = rc
         if a["type"] == "CHPAsset":
+            hc = ch.pick("heat.cap", [4.0, 8.0])   # 8: more heat than max_cap * conversion factor
+            for o in assets:
+                if o["name"] == "heat":
+                    o["min_cap"] = -hc
             sh = ch.pick("pl.max_share_heat", [None, 0.5])
             if sh is not None:
                 a["max_share_heat"] = sh
@@ -427,6 +433,10 @@ def run_partB(case):
         has_start_cost = bool(a.get("start_costs")) or bool(a.get("start_fuel"))
         if start is not None and has_start_cost:
             flagged = [t for t in range(T) if start[t] > 0.5]
+            if isinstance(a.get("start_costs"), dict) and not a.get("start_fuel"):
+                # a start flag in a step whose start costs are zero is free: only every true start has to be flagged there
+                free = [t for t in range(T) if t >= max(1, T // 2)]
+                flagged = [t for t in flagged if t not in free or t in true_starts]
             if flagged != true_starts:
                 V.append(viol("c06.start_flag", "starts flagged at %s, off->on transitions at %s (pattern %s, initial %s)"
                               % (flagged, true_starts, "".join(map(str, word)), init), tags, ptags))
